@@ -225,4 +225,53 @@ def B.small : B → Prop
   | .excl b => -(2 ^ 53) < b.twice ∧ b.twice < 2 ^ 53
   | .unb => True
 
+/-! ### column type of a merged segment
+
+-- mirrors: columnar/src/columnar/merge/mod.rs::merged_numerical_columns_type
+The merger feeds the (min, max) of every source column, typed as that column, to the same
+`CompatibleNumericalTypes` accumulator the writer uses for single values. -/
+
+inductive ColT3 | i64 | u64 | f64
+deriving Repr, DecidableEq, Inhabited
+
+def ColT.lift : ColT → ColT3
+  | .i64 => .i64
+  | .u64 => .u64
+
+/-- a source column: its type and the min / max recorded in it -/
+structure Src where
+  col : ColT3
+  mn : Int
+  mx : Int
+deriving Repr, DecidableEq
+
+/-- every (min, max) fed so far is within the i64 range (`all_values_within_i64_range`) -/
+def allI64 (srcs : List Src) : Bool :=
+  srcs.all (fun s => match s.col with
+    | .u64 => decide (s.mn < I64MAX) && decide (s.mx < I64MAX)
+    | .i64 => true
+    | .f64 => false)
+
+def allU64 (srcs : List Src) : Bool :=
+  srcs.all (fun s => match s.col with
+    | .i64 => decide (0 ≤ s.mn) && decide (0 ≤ s.mx)
+    | .u64 => true
+    | .f64 => false)
+
+def mergedCol (srcs : List Src) : ColT3 :=
+  if allI64 srcs then .i64 else if allU64 srcs then .u64 else .f64
+
+/-! ### write-time type of a path that receives both i64- and u64-supplied values
+
+The accumulator of `colOf`, without the restriction to one supplied type: a value supplied as i64
+(`false`) keeps the column u64-compatible only if it is ≥ 0; a value supplied as u64 (`true`) keeps
+it i64-compatible only if it is strictly below i64::MAX; neither → f64.
+-- mirrors: columnar/src/columnar/writer/column_writers.rs::accept_value -/
+
+def pI (vals : List (Bool × Int)) : Bool := vals.all (fun p => !p.1 || decide (p.2 < I64MAX))
+def pU (vals : List (Bool × Int)) : Bool := vals.all (fun p => p.1 || decide (0 ≤ p.2))
+
+def writtenCol (vals : List (Bool × Int)) : ColT3 :=
+  if pI vals then .i64 else if pU vals then .u64 else .f64
+
 end TantivyModel.JsonRange
